@@ -563,8 +563,8 @@ impl Run {
                     let mut b = vec![0u8; (*buf).max(1) as usize];
                     let mut got = Vec::new();
                     // how the bytes are pulled: read() to the end; a few read()s and then read_all()
-                    // for "all remaining data"; read_all() alone; chunk by chunk
-                    let mode = (ai >> 3) % 4;
+                    // for "all remaining data"; read_all() alone; chunk by chunk; read() and next_chunk() in turn
+                    let mode = (ai >> 3) % 5;
                     let mut reads_left = match mode {
                         1 => 1 + (ai >> 5) as usize % 3,
                         _ => usize::MAX,
@@ -602,8 +602,38 @@ impl Run {
                         }
                         self.lab(ctx, "streamed read: chunk by chunk");
                     }
+                    if mode == 4 {
+                        // one cursor, two ways of advancing it: a generated pattern of read() and
+                        // next_chunk() calls until both report the end
+                        // (bit 10: a read(), bit 9: a next_chunk() — both kinds occur in every pattern, so both ends are seen)
+                        let pat = ((ai >> 6) as usize | 0x400) & !0x200;
+                        let (mut i, mut ended) = (0usize, 0u8);
+                        while ended != 3 && got.len() <= a.bytes.len() + 4096 {
+                            if (pat >> (i % 11)) & 1 == 1 {
+                                match block_on(rd.read(&mut b)) {
+                                    Ok(0) => ended |= 1,
+                                    Ok(n) => {
+                                        got.extend_from_slice(&b[..n]);
+                                        ended = 0;
+                                    },
+                                    Err(e) => bail!(self, ctx, "read-error", "streamed read failed after {} bytes: {e}", got.len()),
+                                }
+                            } else {
+                                match block_on(rd.next_chunk()) {
+                                    Ok(Some(c)) => {
+                                        got.extend_from_slice(&c);
+                                        ended = 0;
+                                    },
+                                    Ok(None) => ended |= 2,
+                                    Err(e) => bail!(self, ctx, "read-error", "next_chunk failed after {} bytes: {e}", got.len()),
+                                }
+                            }
+                            i += 1;
+                        }
+                        self.lab(ctx, "streamed read: read() and next_chunk() in turn");
+                    }
                     if got != a.bytes {
-                        bail!(self, ctx, if mode == 1 { "read-mismatch:read-then-read_all" } else { "read-mismatch" }, "streamed read (mode {mode}, buffer {}) returned {} bytes, stored {} (first difference at {:?})", b.len(), got.len(), a.bytes.len(), got.iter().zip(a.bytes.iter()).position(|(x, y)| x != y));
+                        bail!(self, ctx, if mode == 4 { "read-mismatch:read-and-next_chunk" } else if mode == 1 { "read-mismatch:read-then-read_all" } else { "read-mismatch" }, "streamed read (mode {mode}, buffer {}) returned {} bytes, stored {} (first difference at {:?})", b.len(), got.len(), a.bytes.len(), got.iter().zip(a.bytes.iter()).position(|(x, y)| x != y));
                     }
                     match block_on(rd.verify()) {
                         Ok(true) => {},
